@@ -1301,6 +1301,16 @@ class C10Executor(Executor):
 
     def get_slice(self, st, base, sl, node):
         if isinstance(base, VExt) and base.sort == "Blob":
+            if sl.step is None and (sl.lower is None) != (sl.upper is None):
+                # b[:n] / b[n:] with n >= 0 (PY-SLICE clips at the end): the whole of b / nothing when n >= len(b)
+                n = self._ev_int1(sl.upper if sl.lower is None else sl.lower, st, node)
+                if self.feasible(st.pc, n < 0):
+                    self.unsupported(node, "blob slice with a possibly negative bound")
+                st.assume(BLEN(base.t) >= 0)
+                L = BLEN(base.t)
+                if sl.lower is None:
+                    return [(st, VExt("Blob", z3.If(n >= L, base.t, BSLICE(base.t, z3.IntVal(0), n))))]
+                return [(st, VExt("Blob", z3.If(n <= 0, base.t, BSLICE(base.t, z3.If(n >= L, L, n), L))))]
             if sl.step is not None or sl.lower is None or sl.upper is None:
                 self.unsupported(node, "blob slice shape")
             lo, hi = self._ev_int1(sl.lower, st, node), self._ev_int1(sl.upper, st, node)
